@@ -202,6 +202,17 @@ pub fn frame_space(big: bool) -> Vec<Frame> {
             let e = Frame::Error(ErrorPayload { code: 1, message: payload((total - 12) as usize) });
             v.push(e);
         }
+        // registration frames around and over the limit: one huge operation, many small ones, and
+        // (replier / requestor, whose only field it is) an unchecked oversized topic
+        let t = topics();
+        for n in [LIMIT as usize - 200, LIMIT as usize + 10, 3 * LIMIT as usize] {
+            let huge = "m".repeat(n);
+            v.push(Frame::RegisterPublisher(PublisherPayload { topic: t[1].clone(), retention_policy: 7, operations: vec![Operation::Map(huge.clone())] }));
+            v.push(Frame::RegisterSubscriber(SubscriberPayload { topic: t[2].clone(), retention_policy: 0, operations: vec![Operation::Filter(huge.clone()), Operation::Map("x".into())] }));
+            v.push(Frame::RegisterSubscriber(SubscriberPayload { topic: t[1].clone(), retention_policy: 0, operations: (0..n / 16).map(|i| Operation::Map(format!("op{i:05}"))).collect() }));
+            v.push(Frame::RegisterReplier(ReplierPayload { topic: TopicName::_create_unchecked(&huge, "topic") }));
+            v.push(Frame::RegisterRequestor(RequestorPayload { topic: TopicName::_create_unchecked("namespace", &huge) }));
+        }
     }
     v
 }
@@ -593,10 +604,20 @@ pub fn run(tier: &str) {
 
     // F3: header-only / limit on decode
     let prefixes = [0u64, 1, 2, 8, LIMIT - 1, LIMIT, LIMIT + 1, LIMIT * 2, 1 << 32, 1 << 40, 1 << 63, u64::MAX];
+    // (ascending: once a prefix just over the limit is not refused on sight, the astronomically
+    // large ones are not offered any more - a decoder that buffers for them would take the whole
+    // engine down with an allocation failure instead of yielding one more report of the same defect)
+    let mut limit_broken = false;
     for &p in &prefixes {
+        if limit_broken && p > LIMIT * 2 {
+            continue;
+        }
         for ty in [0u8, 1, 2, 3, 4, 5, 6, 7, 8, 255] {
             for extra in [0usize, 1, 2, 8, 12] {
                 let r = check_header(p, ty, extra);
+                if p > LIMIT && r.is_err() {
+                    limit_broken = true;
+                }
                 acc.case("header", format!("{p}:{ty}:{extra}").as_bytes(), p > 0, || json!({"family": "header", "prefix": p, "type": ty, "payload_bytes_present": extra}), r);
             }
         }
